@@ -750,6 +750,20 @@ fn transcript(ctx: &Ctx, script: &[String], from: usize) -> Result<Vec<String>, 
     Ok(out)
 }
 
+/// The script after `prefix ; ucinewgame` failed with a dead engine while a fresh process ran the same
+/// suffix to the end. When the engine is demonstrably alive right after `prefix ; ucinewgame` (a fresh
+/// process given exactly that answers isready), the death belongs to what came after ucinewgame: the engine
+/// does not behave like a freshly started process there. Otherwise the death is the prefix's (C03/C16 judge
+/// that) and nothing is concluded here.
+fn died_only_after_ucinewgame(ctx: &Ctx, full: &[String], from: usize, err: &str) -> bool {
+    if !err.starts_with("died") {
+        return false;
+    }
+    let mut head: Vec<String> = full[..from].to_vec();
+    head.push("isready".into());
+    transcript(ctx, &head, 0).is_ok()
+}
+
 fn depth_script(rng: &mut Rng, thorough: bool, allow_bare_go: bool) -> Vec<String> {
     let mut s = vec![];
     let n = rng.range(2, if thorough { 7 } else { 4 });
@@ -834,7 +848,7 @@ fn first_difference(a: &[String], b: &[String]) -> String {
 pub fn run_c13(ctx: &Ctx) -> i32 {
     let spec = Spec {
         level: "exploration",
-        rule: "cases: (a) a depth-limited script (2..7 position/go depth 3..6 commands on middlegames) run in N separate processes of the real binary — each draws its own random hash keys — must give byte-identical transcripts once the time and nps fields are removed; (b) in-process, K fresh searchers (K key sets) must agree on (score, move, node count) for each (position, depth); (c) the transcript of a script after 'prefix; ucinewgame' (prefix: searches, time-limited searches, long position histories, games from the start position that repeat positions two or three times; the script often starts with a bare go, which searches the start position) must equal its transcript in a fresh process; (c') after 1..24 quick searches and ucinewgame, a whole game searched move after move (12..20 searches at depth 4..5) must equal the same game in a fresh process. Distinct by script / (position, depth); all non-trivial (every case compares at least two executions)",
+        rule: "cases: (a) a depth-limited script (2..7 position/go depth 3..6 commands on middlegames) run in N separate processes of the real binary — each draws its own random hash keys — must give byte-identical transcripts once the time and nps fields are removed; (b) in-process, K fresh searchers (K key sets) must agree on (score, move, node count) for each (position, depth); (c) the transcript of a script after 'prefix; ucinewgame' (prefix: searches, time-limited searches, long position histories, games from the start position that repeat positions two or three times; the script often starts with a bare go, which searches the start position) must equal its transcript in a fresh process; (c') after 1..24 quick searches and ucinewgame, a whole game searched move after move (12..20 searches at depth 4..5) must equal the same game in a fresh process; an engine that dies in the compared part while a fresh process runs it to the end (and that demonstrably survives 'prefix; ucinewgame') differs from a fresh process too. Distinct by script / (position, depth); all non-trivial (every case compares at least two executions)",
         assumptions: vec!["key sets not drawn in this run are not covered".into(), "only depth-limited searches are compared (time-limited ones legitimately depend on the machine)".into()],
         required: if ctx.replay.is_some() { vec![] } else { vec!["scripts_compared_across_processes", "process_pairs_compared", "key_set_groups_compared", "ucinewgame_scripts_compared", "ucinewgame_scripts_starting_with_bare_go", "ucinewgame_scripts_resuming_the_previous_game_line", "soak_scripts_compared", "ucinewgame_then_a_whole_game_compared"] },
         exhaustive: false,
@@ -854,6 +868,12 @@ pub fn run_c13(ctx: &Ctx) -> i32 {
                     if a != b {
                         st.violation("C13:replay", format!("transcripts differ: {}", first_difference(&a, &b)), c.clone());
                     }
+                }
+                (Err(e), Ok(_)) if from > 0 && died_only_after_ucinewgame(ctx, &cmds, from, &e) => {
+                    st.violation("C13:replay", format!("after the prefix and ucinewgame (which the engine survives) the script ends with a dead engine ({}) while a fresh process runs it to the end", e), c.clone());
+                }
+                (Ok(_), Err(e)) | (Err(e), Ok(_)) if from == 0 && e.starts_with("died") => {
+                    st.violation("C13:replay", format!("the same script runs to the end in one process and ends with a dead engine in another ({})", e), c.clone());
                 }
                 _ => st.inconclusive.push("replay: a process failed".into()),
             }
@@ -898,6 +918,14 @@ pub fn run_c13(ctx: &Ctx) -> i32 {
                             );
                             break;
                         }
+                    }
+                    Err(e) if e.starts_with("died") => {
+                        st.violation(
+                            format!("C13:processes-died:{}", script.join(";")),
+                            format!("the same script runs to the end in one process and ends with a dead engine in another ({}) [script: {}]", e, script.join(" ; ")),
+                            case.clone(),
+                        );
+                        break;
                     }
                     Err(e) => st.inconclusive.push(format!("C13 script failed: {}", e)),
                 }
@@ -1018,6 +1046,14 @@ pub fn run_c13(ctx: &Ctx) -> i32 {
                         );
                     }
                 }
+                (Err(e), Ok(_)) if died_only_after_ucinewgame(ctx, &full, from, &e) => {
+                    st.bump("ucinewgame_scripts_compared");
+                    st.violation(
+                        format!("C13:ucinewgame-died:{}", full.join(";")),
+                        format!("after '{} ; ucinewgame' (which the engine survives) the script '{}' ends with a dead engine ({}) while a fresh process runs it to the end", prefix.join(" ; "), suffix.join(" ; "), e),
+                        case,
+                    );
+                }
                 (Err(e), _) | (_, Err(e)) => st.inconclusive.push(format!("C13 script failed: {}", e)),
             }
         }
@@ -1064,6 +1100,14 @@ pub fn run_c13(ctx: &Ctx) -> i32 {
                             case,
                         );
                     }
+                }
+                (Err(e), Ok(_)) if died_only_after_ucinewgame(ctx, &full, from, &e) => {
+                    st.bump("ucinewgame_then_a_whole_game_compared");
+                    st.violation(
+                        format!("C13:ucinewgame-game-died:{}", hash64(&full)),
+                        format!("after {} searches and ucinewgame (which the engine survives), a game searched move after move ends with a dead engine ({}) while a fresh process runs it to the end", k, e),
+                        case,
+                    );
                 }
                 (Err(e), _) | (_, Err(e)) => st.inconclusive.push(format!("C13 script failed: {}", e)),
             }
